@@ -50,9 +50,33 @@ def containers(x, acc):
     return acc
 
 
+def to_mapping_kind(x, kind, depth=0):
+    """Caller containers as dict subclasses (OrderedDict / defaultdict), at the top only or at every depth."""
+    import collections
+    if isinstance(x, dict):
+        deep = kind.endswith("-deep")
+        items = [(k, to_mapping_kind(v, kind, depth + 1) if deep or depth == 0 else v) for k, v in x.items()]
+        if depth == 0 and not deep and kind.startswith("ordered"):
+            # top level stays a plain dict (needed for ** expansion semantics to be identical); first nesting level converted
+            return dict((k, collections.OrderedDict(v) if isinstance(v, dict) else v) for k, v in items)
+        if kind.startswith("ordered"):
+            return collections.OrderedDict(items)
+        if kind.startswith("default"):
+            d = collections.defaultdict(list)
+            d.update(items)
+            return d
+        return dict(items)
+    if isinstance(x, list):
+        return [to_mapping_kind(v, kind, depth + 1) for v in x]
+    return x
+
+
 class Machine(object):
     def __init__(self, case):
         self.docs = copy.deepcopy(case["docs"])          # caller-owned argument values
+        mk = case.get("mapping_kind", "dict")
+        if mk != "dict":
+            self.docs = [to_mapping_kind(d, mk) for d in self.docs]
         self.vers = case["vers"]
         self.objs = []                                    # library objects created so far
         self.extra = []                                   # other caller-owned containers handed to the library
@@ -309,7 +333,7 @@ def case_strategy(draw):
     ops = [{"op": "parse", "a": 0, "flag": True}]
     for _ in range(draw(st.integers(3, 8))):
         ops.append({"op": draw(st.sampled_from(OPS)), "a": draw(st.integers(0, 5)), "b": draw(st.integers(0, 11)), "c": draw(st.integers(0, 3)), "flag": draw(st.booleans())})
-    return {"docs": docs, "vers": vers, "ops": ops}
+    return {"docs": docs, "vers": vers, "ops": ops, "mapping_kind": draw(st.sampled_from(["dict", "dict", "ordered", "ordered-deep", "default-deep"]))}
 
 
 def run(ctx):
@@ -325,7 +349,7 @@ def run(ctx):
     def body(case):
         fails = check_case(case)
         depth2 = any(any(isinstance(v, (list, dict)) for v in d.values()) for d in case["docs"])
-        cl = ["op:" + o["op"] for o in case["ops"]] + ["docs:%d" % len(case["docs"])]
+        cl = ["op:" + o["op"] for o in case["ops"]] + ["docs:%d" % len(case["docs"]), "containers:" + case.get("mapping_kind", "dict")]
         ctx.note(case, depth2 and len(case["ops"]) >= 3, cl)
         ctx.handle(case, fails)
 
